@@ -67,7 +67,10 @@ def run(ctx):
     n = 2500 if ctx.tier == "quick" else 60000
     if ctx.differential("c01", n, nontrivial=nt) is not None:
         floors(ctx, "c01", {"functions": n * 9 // 10, "outcome:ok": n // 2, "bound_functions": n // 2, "staircase_depth_ge6": n // 64,
-                            "usedef_crosschecks": 2 * n, "bound_input_output_pairs": 5 * n, "compile:ok": n // 6})
+                            "usedef_crosschecks": 2 * n, "bound_input_output_pairs": 5 * n, "compile:ok": n // 6,
+                            # author-written restricted registers (SP views, K0) next to virtuals; plain reg-to-reg moves (see c03.py)
+                            "bound:virt_next_to_restricted_instrs": n // 8, "bound:regmove_virt_restricted": n // 10,
+                            "bound:regmove_virt_phys": n // 10, "bound:regmove_virt_virt": n // 25, "bound:rcopy_functions": n // 16})
         ceilings(ctx, "c01", {"cfg_rejected": n // 50, "liveness_error": 0})
         exact_model_info(ctx)
     # measured end to end on the CPU: avo-compiled vs private-storage execution of the same program
@@ -77,7 +80,10 @@ def run(ctx):
         floors(ctx, "c01x", {"programs": nx // 2, "judged": nx // 2})
     ctx.coverage["rule"] = (
         "generated functions (all GP widths incl. 8H views of the same virtual, XMM/YMM/ZMM, K, gather/scatter forms with VECTOR index "
-        "registers, four-operand forms, author-chosen physical and implicit-register instructions, pressure below and above the register "
+        "registers, four-operand forms, author-chosen physical and implicit-register instructions — the RESTRICTED registers SP (64/32/16/8-bit "
+        "views) and K0 included, as operands and address registers next to virtual registers —, plain register-to-register moves "
+        "(MOVB/MOVW/MOVL/MOVQ/KMOVx/MOVOU/VMOVDQU) between a virtual and a restricted / other physical / virtual register in both directions, "
+        "'copy of SP / K0' idioms with and without interference, pressure below and above the register "
         "file, loops, diamonds, dead definitions, and 'staircase' loops that need up to 13 (thorough: 52) liveness sweeps) through the real "
         "LabelTarget/CFG/ZeroExtend/Liveness/AllocateRegisters/BindRegisters/VerifyAllocation one by one, and an identical twin of every third "
         "function through the entry point pass.Compile (whole pass list in the library's order). Everything is judged by acceptors on the "
